@@ -431,10 +431,10 @@ func (s *socket) clearTransport() {
 // Possible reasons: `ping timeout`, `client error`, `parse error`,
 // `transport error`, `server close`, `transport close`
 func (s *socket) OnClose(reason string, description ...error) {
-	if s.ReadyState() != "closed" {
+	// test and set in one step: several close causes may race, only one of them closes
+	if prev, _ := s.readyState.Swap("closed").(string); prev != "closed" {
+		socket_log.Debug("readyState updated from %s to %s", prev, "closed")
 		description = append(description, nil)
-
-		s.SetReadyState("closed")
 
 		// clear timers
 		utils.ClearTimeout(s.pingIntervalTimer.Load())
@@ -551,11 +551,11 @@ func (s *socket) Close(discard bool) {
 		return
 	}
 
-	if s.ReadyState() != "open" {
+	// only an open session starts closing (a concurrent close must not be undone)
+	if !s.readyState.CompareAndSwap("open", "closing") {
 		return
 	}
-
-	s.SetReadyState("closing")
+	socket_log.Debug("readyState updated from %s to %s", "open", "closing")
 
 	if length := s.writeBuffer.Len(); length > 0 {
 		socket_log.Debug("there are %d remaining packets in the buffer, waiting for the 'drain' event", length)
